@@ -27,8 +27,10 @@ VERIF = Path(__file__).resolve().parent.parent
 REPO = Path(os.environ.get("VERIF_REPO", "/repo"))
 SRC = REPO / "src"
 COQ = VERIF / "coq"
-EVIDENCE = VERIF / "evidence"
-REPLAYS = VERIF / "replays"
+# a run against a scratch worktree (seed testing) must never overwrite the evidence of /repo
+_ALT = os.environ.get("VERIF_REPO") not in (None, "", "/repo")
+EVIDENCE = (Path(os.environ.get("VERIF_ALT_OUT", "/tmp/verif-alt")) / "evidence") if _ALT else VERIF / "evidence"
+REPLAYS = (Path(os.environ.get("VERIF_ALT_OUT", "/tmp/verif-alt")) / "replays") if _ALT else VERIF / "replays"
 KNOWN = VERIF / "known_findings.txt"
 PY = "/venv/bin/python"
 NCPU = os.cpu_count() or 4
@@ -367,8 +369,8 @@ class Check:
 
     # -- finish ------------------------------------------------------------
     def finish(self) -> int:
-        EVIDENCE.mkdir(exist_ok=True)
-        REPLAYS.mkdir(exist_ok=True)
+        EVIDENCE.mkdir(parents=True, exist_ok=True)
+        REPLAYS.mkdir(parents=True, exist_ok=True)
         rc = 0
         lines = []
         for m in self.known_hits:
